@@ -97,6 +97,10 @@ Definition remap (sg : Z -> Z) (m : rmol) : rmol := (map (remap_atom sg) (fst m)
 Definition sN (sg : Z -> Z) (n : N) : N := Z.to_N (sg (Z.of_N n)).
 Definition pos_mapped (a : ratom) : bool := 0 <? r_map a.
 
+(** the node ids MolToGraph.transform assigns (use_index_as_atom_map = ui): map number if ui and mapped, index + 1 otherwise *)
+Fixpoint atom_ids (ui : bool) (idx : N) (l : list ratom) : list N :=
+  match l with [] => [] | a :: r => atom_id ui idx a :: atom_ids ui (N.succ idx) r end.
+
 (** * observables *)
 Definition t_mols (x : option (option wmol * option wmol)) : tok :=
   topt (fun y : option wmol * option wmol => L [t_wmol (fst y); t_wmol (snd y)]) x.
